@@ -239,8 +239,12 @@ func c03GenMsg(r *rand.Rand, maxBody int) c03Msg {
 		wire.WriteString(body)
 	case kind == 18:
 		m.framing = "none"
-		m.code = verifh.Pick(r, []int{204, 304})
+		m.code = verifh.Pick(r, []int{204, 304, 101})
 		body = ""
+		if m.code == 101 {
+			add("Connection", "Upgrade")
+			add("Upgrade", "verif")
+		}
 	default:
 		m.framing = "none"
 		m.head = true
@@ -341,6 +345,17 @@ func c03RunClient(dial func(ctx context.Context, network, addr string) (net.Conn
 			return "fail", "nil response without error"
 		}
 		var body []byte
+		if resp.StatusCode <= 199 {
+			// 101 Switching Protocols: the body is the raw connection; nothing to read here
+			if resp.Body != nil {
+				resp.Body.Close()
+			}
+			if early {
+				early = false
+				return "ok-early code=" + strconv.Itoa(resp.StatusCode), ""
+			}
+			return "ok code=" + strconv.Itoa(resp.StatusCode) + " body=_", ""
+		}
 		if early {
 			// the caller walks away: close the body without reading it
 			early = false
@@ -695,7 +710,8 @@ func TestVerif_C03_h1tcp(t *testing.T) {
 	nMsgs := verifh.N(25, 200)
 	reached := map[string]int{}
 	id := 0
-	for i := 0; i < nMsgs; i++ {
+	failures := 0
+	for i := 0; i < nMsgs && failures < 12; i++ {
 		m := c03GenMsg(r, 300)
 		if i%8 == 7 {
 			m = c03GenMsg(r, 20000)
@@ -749,6 +765,9 @@ func TestVerif_C03_h1tcp(t *testing.T) {
 			if !obs.secondOK {
 				ok, why = false, "second request failed: "+obs.secondNote
 			}
+			if !ok {
+				failures++
+			}
 			reached["mode:"+mode]++
 			s.Count("framing:" + m.framing)
 			s.Count("mode:" + mode)
@@ -760,6 +779,9 @@ func TestVerif_C03_h1tcp(t *testing.T) {
 		}
 	}
 	s.Finish()
+	if failures >= 12 {
+		return
+	}
 	for _, need := range []string{"first-ok", "first-fail", "mode:eof", "mode:reset"} {
 		if reached[need] == 0 {
 			t.Errorf("C03/h1tcp never reached %q", need)
@@ -786,7 +808,8 @@ func TestVerif_C03_gzipcut(t *testing.T) {
 	r := s.Rand()
 	nMsgs := verifh.N(12, 60)
 	reached := map[string]int{}
-	for i := 0; i < nMsgs; i++ {
+	failures := 0
+	for i := 0; i < nMsgs && failures < 12; i++ {
 		plain := verifh.RandBytes(r, 1+r.Intn(400), "abcdefgh \n")
 		z := c03Gzip([]byte(plain))
 		var wire strings.Builder
@@ -848,6 +871,9 @@ func TestVerif_C03_gzipcut(t *testing.T) {
 			}
 			if !secondOK {
 				ok, why = false, "second request failed"
+			}
+			if !ok && class == "" {
+				failures++
 			}
 			s.Count("framing:" + framing)
 			human := fmt.Sprintf("gzip framing=%s len=%d (head %d) cut k=%d -> %s", framing, len(st), he, k, c04Short(first))
